@@ -956,6 +956,64 @@ func c12EvaluationsSSA(r *Run) {
 	for _, k := range keys {
 		s := sites[k]
 		con := "evaluation of node.Arguments[" + s.idx.Name() + "]"
+		// the position is a parameter of a helper that evaluates one argument: what its call sites pass
+		if prm, isP := s.idx.(*ssa.Parameter); isP {
+			pi := -1
+			for i, q := range prm.Parent().Params {
+				if q == prm {
+					pi = i
+				}
+			}
+			csites := w.staticCallSites(prm.Parent())
+			var cargs []ssa.Value
+			for _, cs := range csites {
+				if pi >= 0 && pi < len(cs.Common().Args) {
+					cargs = append(cargs, cs.Common().Args[pi])
+				}
+			}
+			okAll := len(cargs) > 0 && len(cargs) == len(csites)
+			for _, a := range cargs {
+				phi, ok := chainedCounter(a, 0)
+				if !ok {
+					// a counter that starts where another site's counter (from 0) is bounded: phi(V, +1) after `b < V`
+					if ph, isPhi := a.(*ssa.Phi); isPhi && len(ph.Edges) == 2 {
+						var init ssa.Value
+						step := false
+						for _, e := range ph.Edges {
+							if bo, isBO := e.(*ssa.BinOp); isBO && bo.Op == token.ADD && bo.X == ssa.Value(ph) {
+								if c, isC := bo.Y.(*ssa.Const); isC && c.Value != nil && constant.Compare(c.Value, token.EQL, constant.MakeInt64(1)) {
+									step = true
+									continue
+								}
+							}
+							init = e
+						}
+						if step && init != nil {
+							for _, b := range cargs {
+								bphi, okb := chainedCounter(b, 0)
+								if !okb || b == a {
+									continue
+								}
+								if boundedBy(b, bphi.Block().Succs[0], func(v ssa.Value) bool { return v == init }) || boundedBy(ssa.Value(bphi), bphi.Block().Succs[0], func(v ssa.Value) bool { return v == init }) {
+									phi, ok = ph, true
+								}
+							}
+						}
+					}
+				}
+				if !ok {
+					okAll = false
+					break
+				}
+				loopsSeen[phi.Block()]++
+			}
+			if okAll {
+				r.Ok("R1", name, con, w.Pos(s.idx.Pos()), fmt.Sprintf("a helper evaluates one position; its %d call site(s) pass indices that ascend by one from 0 (or from where the previous loop stopped)", len(cargs)))
+			} else {
+				r.Bad("R1", name, con, w.Pos(s.idx.Pos()), "an argument is evaluated at an index that does not run over consecutive positions from 0 (it may be evaluated twice, skipped, or out of order)")
+			}
+			continue
+		}
 		phi, ok := chainedCounter(s.idx, 0)
 		switch {
 		case !ok:
